@@ -28,12 +28,12 @@ type c15T struct {
 }
 
 type c15Item struct {
-	Idx     int    `json:"idx"`
-	Pos     string `json:"pos"` // param | field | payload | sig | siglocal | targ
-	T       *c15T  `json:"type"`
-	Variant string `json:"variant"` // minimal | redundant
+	Idx     int      `json:"idx"`
+	Pos     string   `json:"pos"` // param | field | payload | sig | siglocal | targ
+	T       *c15T    `json:"type"`
+	Variant string   `json:"variant"` // minimal | redundant
 	Toks    []string `json:"toks"`
-	Text    string `json:"text"` // the type expression as written in the source
+	Text    string   `json:"text"` // the type expression as written in the source
 }
 
 func c15Base(n string) *c15T { return &c15T{K: "base", Name: n} }
